@@ -494,6 +494,9 @@ class W1World(World):
                 if empties and rng.random() < 0.35:
                     new = rng.choice(empties)
                 s.update(fmt=rng.choice(FMTS), entry=rng.choice(ENTRIES), cross=rng.random() < 0.4, new=new)
+                if s['entry'].endswith('direct') and g in getattr(self, 'saved', {}) and rng.random() < 0.5:
+                    # "save, keep editing, load the saved text again": the text serialized by an earlier step
+                    s.update(saved=True, fmt=self.saved[g]['fmt'])
                 if new not in self.client_graphs[client]:
                     self.client_graphs[client].append(new)
         elif op in QUERY_OPS:
@@ -660,6 +663,7 @@ class W1World(World):
         self._cur_op = op
         self._cur_cond = s.get('kind') or ''
         self._cur_target = ''
+        self._cur_direct = ''
         fn = getattr(self, 'do_' + op, None)
         if fn is None:
             if op in QUERY_OPS:
@@ -711,7 +715,7 @@ class W1World(World):
                               'node id stored twice in one graph: %s' % dup[:3])
                 else:
                     self.flag('C05', 'state_3way', {'store': b, 'op': op, 'cond': self._cur_cond,
-                                                    'target': self._cur_target},
+                                                    'target': self._cur_target, 'direct': self._cur_direct},
                               'after %s the %s store differs from the reference model: %s' %
                               (op, b, self.diff_detail(post[b], mstate)))
         sh = h8(canon(mstate))
@@ -1128,6 +1132,7 @@ class W1World(World):
             return self.model.import_desc(g, desc, direct)
         self._cur_cond = kind + ('/direct' if direct else '/nondirect')
         self._cur_target = 'existing' if self.model.gnodes(g) else 'fresh'
+        self._cur_direct = direct
         o = self.three_way(s, lambda b: self.import_call(b, entry, text, g), model, True)
         return {g}, o
 
